@@ -94,7 +94,7 @@ def main(argv=None):
     ap.add_argument('--no-evidence', action='store_true')
     a = ap.parse_args(argv)
     if 'VERIF_GRAPH_BUDGET_S' not in os.environ:
-        # wall-clock budget of one explored graph (the largest graph of the unchanged tree: ~20 s quick, ~250 s thorough)
+        # CPU-time budget (process_time of the shard process) of one explored graph (the largest graph of the unchanged tree: ~20 s quick, ~250 s thorough)
         from mc import core as _core
         _core.SHARD_BUDGET_S = 45.0 if a.tier == "quick" else 1500.0
     pid = a.pid.upper()
